@@ -188,7 +188,7 @@ def evaluate(slot, mid, site, outdir, lock):
     with lock:
         with open(os.path.join(outdir, "results.jsonl"), "a") as f:
             f.write(json.dumps(rec) + "\n")
-        print("MUTANT %s %s:%d %s -> %s %s %s" % (mid, rel, ln + 1, op, rec["status"], ",".join(rec["killed_by"]), rec["signatures"][:1]), flush=True)
+        print("MUTANT %s %s:%d %s -> %s %s %s | %s => %s" % (mid, rel, ln + 1, op, rec["status"], ",".join(rec["killed_by"]), rec["signatures"][:1], rec["before"][:100], rec["after"][:100]), flush=True)
 
 
 def main():
